@@ -868,3 +868,40 @@ Proof.
   intros HM Hg Hu Hq Hq'. unfold cv_eigenvector_v.
   destruct (fitted_rigid_M M q q' ref v t g HM Hg Hu Hq Hq') as [E _]. rewrite E. reflexivity.
 Qed.
+
+(* ------------------------------------------------------------------ pair lists of selfCoordNum / group2CenterOnly over runs *)
+Section PairListRunsPts.
+  Variables (freq : Z) (r0 : R) (r0v : option V3) (en ed : Z) (tol : R) (cell : option V3).
+  Local Notation runp := (pl_run_pts Rops freq r0 r0v en ed tol cell).
+  Lemma pl_run_pts_rebuild st rel (frames : list (list (V3 * V3))) k fr : nth_error frames k = Some fr ->
+    ((rel + Z.of_nat k) mod freq = 0)%Z ->
+    nth_error (fst (runp st rel frames)) k = Some (pts_full Rops r0 r0v en ed tol cell fr).
+  Proof.
+    revert st rel k. induction frames as [|f0 rest IH]; intros st rel k Hk Hm; [destruct k; discriminate|].
+    cbn [pl_run_pts]. destruct (pl_step_pts Rops freq r0 r0v en ed tol cell st rel f0) as [st1 v] eqn:Es.
+    specialize (IH st1 (Z.succ rel)). destruct (runp st1 (Z.succ rel) rest) as [vs st2]. cbn [fst] in *.
+    destruct k as [|k]; cbn [nth_error] in *.
+    - injection Hk as ->. unfold pl_step_pts in Es. rewrite Z.add_0_r in Hm. rewrite Hm, Z.eqb_refl in Es.
+      injection Es as _ <-. reflexivity.
+    - apply IH; [exact Hk|]. replace (Z.succ rel + Z.of_nat k)%Z with (rel + Z.of_nat (S k))%Z by lia. exact Hm.
+  Qed.
+  Lemma pl_session_pts_first st (runs : list (list (list (V3 * V3)))) j rn fr : nth_error runs j = Some rn -> nth_error rn 0 = Some fr ->
+    exists vs, nth_error (pl_session_pts Rops freq r0 r0v en ed tol cell st runs) j = Some vs /\
+               nth_error vs 0 = Some (pts_full Rops r0 r0v en ed tol cell fr).
+  Proof.
+    revert st j. induction runs as [|r1 rest IH]; intros st j Hj H0; [destruct j; discriminate|].
+    cbn [pl_session_pts]. destruct (runp st 0%Z r1) as [vs st1] eqn:Er.
+    destruct j as [|j]; cbn [nth_error] in *.
+    - injection Hj as Hj. subst r1. exists vs. split; [reflexivity|].
+      assert (H := pl_run_pts_rebuild st 0%Z rn 0 fr H0 (Zmod_0_l freq)). rewrite Er in H. exact H.
+    - apply IH; assumption.
+  Qed.
+End PairListRunsPts.
+Lemma pts_full_self r0 en ed tol cell g : pts_full Rops r0 None en ed tol cell (self_pts g) = cv_selfcoordnum Rops r0 en ed tol cell g.
+Proof.
+  unfold pts_full, cv_selfcoordnum. rewrite lsum_eq, self_sum_from_eq. rs.
+  rewrite (self_rsum_pts (fun p1 p2 => switching Rops r0 None en ed tol cell p1 p2) g). lra.
+Qed.
+Lemma pts_full_center r0 r0v en ed tol cell g1 g2 :
+  pts_full Rops r0 r0v en ed tol cell (center_pairs Rops g1 g2) = cv_coordnum_center Rops r0 r0v en ed tol cell g1 g2.
+Proof. unfold pts_full, cv_coordnum_center, center_pairs. cbv zeta. rewrite !lsum_eq, rsum_map. reflexivity. Qed.
